@@ -40,12 +40,27 @@ TRow ==
     /\ exp' = Tail(exp)
     /\ l' = l + 1 /\ UNCHANGED <<rvars, fin>>
 
+\* how the reader says the stream ended; then: the end of the stream is final (a further Read says so
+\* again), and the conversation goes on as the handler decides - it completes the COPY, or it returns the
+\* reader's error and the COPY fails with exactly one ErrorResponse - with one ReadyForQuery, and the next
+\* query is answered
 TEnd ==
-    /\ More /\ Ev.k = "end" /\ exp = <<>> /\ Ev.ret = fin
+    /\ More /\ Ev.k = "end" /\ exp = <<>> /\ Ev.ret = fin /\ fin \in {"eof", "err"}
+    /\ fin' = IF fin = "eof" THEN "again" ELSE "conv-err"
+    /\ l' = l + 1 /\ UNCHANGED <<rvars, exp>>
+
+TAgain ==
+    /\ More /\ Ev.k = "again" /\ fin = "again" /\ Ev.ret = "eof"
+    /\ fin' = "conv-eof"
+    /\ l' = l + 1 /\ UNCHANGED <<rvars, exp>>
+
+TConv ==
+    /\ More /\ Ev.k = "conv" /\ fin \in {"conv-eof", "conv-err"}
+    /\ Ev.kinds = IF fin = "conv-err" /\ Ev.mode = "ret" THEN <<"E", "Z", "C", "Z">> ELSE <<"C", "Z", "C", "Z">>
     /\ fin' = "none"
     /\ l' = l + 1 /\ UNCHANGED <<rvars, exp>>
 
-TNext == TScn \/ TRow \/ TEnd
+TNext == TScn \/ TRow \/ TEnd \/ TAgain \/ TConv
 TSpec == TInit /\ [][TNext]_tvars
 
 ASSUME TLCSet(1, 0) /\ TLCSet(2, "none")
